@@ -110,9 +110,37 @@ func buildScriptX(fr *FuncResult, upto int, goal string, pre string, assumptions
 	if upto < len(fr.Facts) && fr.Facts[upto].Oblig && fr.Spec != nil && fr.Spec.Opts["group-hyps"] != "" {
 		grp = oblGroup(fr.Facts[upto].Name)
 	}
+	// opt path-hyps: proof hints of the form `assert P ==> (G)` split a goal G by path condition P. A hint is proved
+	// from the earlier hints of its own path (and the unconditional ones); the unconditional `assert G` that closes
+	// a group is proved from the conditional hints right before it; everything else sees only unconditional hints.
+	pathHyps := upto < len(fr.Facts) && fr.Facts[upto].Oblig && fr.Spec != nil && fr.Spec.Opts["path-hyps"] != ""
+	myAnte := ""
+	ownGroup := map[int]bool{}
+	if pathHyps {
+		if strings.HasPrefix(fr.Facts[upto].Kind, "assert") || strings.Contains(fr.Facts[upto].Name, "#assert[") {
+			myAnte = hintAntecedent(fr.Facts[upto].Info)
+			if myAnte == "" {
+				for j := upto - 1; j >= 0; j-- {
+					f := fr.Facts[j]
+					if !f.Oblig {
+						continue
+					}
+					if !strings.Contains(f.Name, "#assert[") || hintAntecedent(f.Info) == "" {
+						break
+					}
+					ownGroup[j] = true
+				}
+			}
+		}
+	}
 	for j := 0; j < upto; j++ {
 		if assumptionsOnly && fr.Facts[j].Oblig {
 			continue
+		}
+		if pathHyps && fr.Facts[j].Oblig && strings.Contains(fr.Facts[j].Name, "#assert[") {
+			if a := hintAntecedent(fr.Facts[j].Info); a != "" && a != myAnte && !ownGroup[j] {
+				continue
+			}
 		}
 		if f := fr.Facts[j]; f.Oblig && grp != "" && oblGroup(f.Name) != grp && !strings.HasPrefix(f.Kind, "assert") && !strings.Contains(f.Kind, "lemma") && (strings.Contains(f.Term, "(forall ") || strings.Contains(f.Term, "(exists ")) {
 			// an earlier quantified obligation of another group: proved separately, not needed as a hypothesis here
@@ -129,6 +157,23 @@ func buildScriptX(fr *FuncResult, upto int, goal string, pre string, assumptions
 	}
 	b.WriteString("(check-sat)\n")
 	return b.String()
+}
+
+// hintAntecedent: P for a hint whose text is "hint: P ==> (G)", "" otherwise.
+func hintAntecedent(info string) string {
+	t := strings.TrimPrefix(info, "hint: ")
+	if !strings.HasSuffix(strings.TrimSpace(t), ")") {
+		return ""
+	}
+	k := strings.Index(t, " ==> (")
+	if k < 0 {
+		return ""
+	}
+	// the antecedent must not itself contain a quantifier or an implication at top level (keep it simple: no "::")
+	if strings.Contains(t[:k], "::") || strings.Contains(t[:k], "==>") {
+		return ""
+	}
+	return strings.TrimSpace(t[:k])
 }
 
 func runSolver(sd solverDef, script string, file string, timeout time.Duration, seed int) (string, string, float64) {
